@@ -76,14 +76,18 @@ def _build(case):
     b = BatchLoader(order=1, scale=1.0, output_shape=BOX)
     # registration history: explicit ids 0, 1; or (odd seeds) tomogram 1 under the explicit id 1 first and tomogram 0 with an
     # AUTOMATIC id afterwards, so that the registry is not 0..n-1 when the automatic id is chosen
-    gap = cfg["seed"] % 2 == 1
+    gap = cfg["seed"] == 1
+    # seed 7: explicit ids that are NOT registered in ascending order (tomogram 0 as id 5 first, tomogram 1 as id 2 afterwards):
+    # the order in which ids first appear in the molecule table differs from their sorted order, and for odd n the two
+    # tomograms hold different numbers of molecules
+    ids = {0: 5, 1: 2} if cfg["seed"] == 7 else {0: 0, 1: 1}
     for m in ((1, 0) if gap else (0, 1)):
         idx = [i for i in range(n) if img_of[i] == m]
         if idx:
             if gap and m == 0:
                 b.add_tomogram(wrap(tomos[m]), Molecules(pos[idx], features=feats[idx]))
             else:
-                b.add_tomogram(wrap(tomos[m]), Molecules(pos[idx], features=feats[idx]), image_id=m)
+                b.add_tomogram(wrap(tomos[m]), Molecules(pos[idx], features=feats[idx]), image_id=ids[m])
     return b
 
 
@@ -230,7 +234,7 @@ def run(rep: engine.Report, tier: str, seed: int):
     rep.exhaustive = len(sel) == len(cases)
     rep.rule = (
         "TLC enumerates molecule counts 1..6 x single/batch/mock x distinct/coinciding markers x 3 group-key patterns x "
-        "numpy/2 dask chunkings x n_set {1,2} x seeds {0,1,7} (odd seeds register the batch tomograms out of order with an automatic id), proves the split law over all bipartitions and that the "
+        "numpy/2 dask chunkings x n_set {1,2} x seeds {0,1,7} (seed 1 registers the batch tomograms out of order with an automatic id, seed 7 under explicit ids 5 then 2), proves the split law over all bipartitions and that the "
         f"acceptor admits exactly the permitted splits; {len(cases)} cases, {len(sel)} run on real loaders; events "
         "(average, average_split twice, group average, group average_split) are judged by TLC in exact rationals"
     )
